@@ -146,7 +146,7 @@ theorem maj_step {E : Engine} (hE : EngineOK E) {cfg : Cfg} {votes : Profile} (h
           rw [hx, hy] at hnd
           simp at hnd
     simp only [advance, hs0, he1, hel1, seatsAdd, List.foldl_cons, List.foldl_nil, seatsAdd1, Nat.zero_add]
-  | elimination hout =>
+  | elimination _ hout =>
     left
     obtain ⟨retained, hsel, he, htr, he1, he2⟩ := afterElimination_inv hout
     rw [hstep] at hsel
